@@ -754,6 +754,9 @@ func (s *inProcessClientStream) ensureNoMoreLocked(m interface{}) error {
 		s.last = &frame{err: status.Error(codes.Internal, "method should return 1 response message but server sent >1")}
 		s.state = streamStateClosed
 		return s.last.err
+	} else if err != io.EOF {
+		// if the server failed after sending the single message, the failure takes precedence
+		return err
 	}
 	return nil
 }
